@@ -7,9 +7,11 @@ import (
 	"context"
 	"fmt"
 	"sort"
+	"strings"
 
 	cmtabci "github.com/cometbft/cometbft/abci/types"
 
+	"github.com/oasisprotocol/oasis-core/go/common/crypto/signature"
 	"github.com/oasisprotocol/oasis-core/go/common/node"
 	"github.com/oasisprotocol/oasis-core/go/common/quantity"
 	"github.com/oasisprotocol/oasis-core/go/consensus/api/transaction"
@@ -17,6 +19,7 @@ import (
 	registryState "github.com/oasisprotocol/oasis-core/go/consensus/cometbft/apps/registry/state"
 	schedulerState "github.com/oasisprotocol/oasis-core/go/consensus/cometbft/apps/scheduler/state"
 	stakingState "github.com/oasisprotocol/oasis-core/go/consensus/cometbft/apps/staking/state"
+	tmcrypto "github.com/oasisprotocol/oasis-core/go/consensus/cometbft/crypto"
 	genesis "github.com/oasisprotocol/oasis-core/go/genesis/api"
 	"github.com/oasisprotocol/oasis-core/go/storage/mkvs"
 	staking "github.com/oasisprotocol/oasis-core/go/staking/api"
@@ -344,4 +347,88 @@ func (a *cnAuthProbe) AuthenticateTx(ctx *cmtapi.Context, tx *transaction.Transa
 
 func (a *cnAuthProbe) PostExecuteTx(ctx *cmtapi.Context, tx *transaction.Transaction) error {
 	return a.inner.PostExecuteTx(ctx, tx)
+}
+
+// registryProjection reads the registry's primary records and its indexes through the exported readers.
+func (n *cnNet) registryProjection(t mkvs.ImmutableKeyValueTree) (map[string]any, error) {
+	ctx := context.Background()
+	rs := registryState.NewImmutableState(t)
+	ss := stakingState.NewImmutableState(t)
+	nodes, err := rs.Nodes(ctx)
+	if err != nil {
+		return nil, err
+	}
+	ents, err := rs.Entities(ctx)
+	if err != nil {
+		return nil, err
+	}
+	var nl []map[string]any
+	for _, nd := range nodes {
+		keys := map[string]string{"cons": nd.Consensus.ID.String(), "p2p": nd.P2P.ID.String(), "vrf": nd.VRF.ID.String(), "tls": nd.TLS.PubKey.String()}
+		found := map[string]string{}
+		for role, k := range keys {
+			var pk signature.PublicKey
+			_ = pk.UnmarshalText([]byte(k))
+			got, lerr := rs.NodeBySubKey(ctx, pk)
+			if lerr != nil || got == nil {
+				found[role] = "none"
+			} else {
+				found[role] = n.keyName(got.ID.String())
+			}
+		}
+		byAddr, aerr := rs.NodeByConsensusAddress(ctx, tmcrypto.PublicKeyToCometBFT(&nd.Consensus.ID).Address())
+		ba := "none"
+		if aerr == nil && byAddr != nil {
+			ba = n.keyName(byAddr.ID.String())
+		}
+		nl = append(nl, map[string]any{"id": n.keyName(nd.ID.String()), "ent": n.nameOf(staking.NewAddress(nd.EntityID)), "keys": keys,
+			"found": found, "by_cons_addr": ba, "exp": int64(nd.Expiration)})
+	}
+	sort.Slice(nl, func(i, j int) bool { return nl[i]["id"].(string) < nl[j]["id"].(string) })
+	if nl == nil {
+		nl = []map[string]any{}
+	}
+	el := map[string]any{}
+	for _, e := range ents {
+		en, err := rs.GetEntityNodes(ctx, e.ID)
+		if err != nil {
+			return nil, err
+		}
+		idx := []string{}
+		for _, x := range en {
+			idx = append(idx, n.keyName(x.ID.String()))
+		}
+		sort.Strings(idx)
+		allow := []string{}
+		for _, x := range e.Nodes {
+			allow = append(allow, n.keyName(x.String()))
+		}
+		sort.Strings(allow)
+		el[n.nameOf(staking.NewAddress(e.ID))] = map[string]any{"index_nodes": idx, "allowed_nodes": allow}
+	}
+	claims := map[string]any{}
+	addrs, _ := ss.Addresses(ctx)
+	for _, a := range addrs {
+		ac, err := ss.Account(ctx, a)
+		if err != nil {
+			return nil, err
+		}
+		cl := []string{}
+		for c := range ac.Escrow.StakeAccumulator.Claims {
+			s := string(c)
+			// node claims carry the node id: replace it by the node's short name
+			if strings.HasPrefix(s, "registry.RegisterNode.") {
+				var pk signature.PublicKey
+				if pk.UnmarshalText([]byte(strings.TrimPrefix(s, "registry.RegisterNode."))) == nil {
+					s = "node:" + n.keyName(pk.String())
+				}
+			} else if s == "registry.RegisterEntity" {
+				s = "entity"
+			}
+			cl = append(cl, s)
+		}
+		sort.Strings(cl)
+		claims[n.nameOf(a)] = cl
+	}
+	return map[string]any{"nodes": nl, "entities": el, "claims": claims}, nil
 }
